@@ -10,7 +10,7 @@ import json, os, random
 from vlib import core, httpgen as hg, grpc_gen as gg, grpc_check as gc
 
 FOCUS = {"eval": ["accepted"], "wf": ["accepted", "table", "rpcs", "descok"],
-         "run": ["accepted", "descok", "invoked", "delivered", "cerr", "returned"]}
+         "run": ["accepted", "descok", "where", "invoked", "delivered", "rwhere", "cerr", "returned"]}
 
 
 def under_test(v, fam):
@@ -165,7 +165,7 @@ def run(ctx):
                         "stream Send/Recv conversions are not executed (rpc declarations of the four streaming kinds are checked)"]
     nontrivial = set()
     stats = {"unusable": 0, "ran": 0, "ran_by_loc": {}, "uncompilable": {}, "generator_failed": {}}
-    frac = float(os.environ.get("VERIF_FRAC") or (0.1 if quick else 1.0))
+    frac = float(os.environ.get("VERIF_FRAC") or (0.09 if quick else 1.0))
     fams = (os.environ.get("VERIF_FAMS") or "wf,xm,req,res").split(",")
     selftest = ctx.selftest or not quick
     # (M) vacuity: with each named deviation the model violates the property
